@@ -128,7 +128,8 @@ func genInheritance(r *Rng) (map[string]*inhType, []string) {
 	for i := n - 1; i >= 0; i-- { // later types first: bases are later types
 		name := fmt.Sprintf("@t%d", i)
 		t := &inhType{name: name}
-		for k := 0; k < 1+r.Intn(2); k++ {
+		// 0 to 3 own properties: an heir may have none of its own ("{} // {allOf: […]}"), bases differ in size
+		for k := 0; k < r.Intn(4); k++ {
 			kid++
 			t.own = append(t.own, fmt.Sprintf("k%d", kid))
 		}
@@ -138,7 +139,7 @@ func genInheritance(r *Rng) (map[string]*inhType, []string) {
 			later = append(later, fmt.Sprintf("@t%d", j))
 		}
 		for _, cand := range later {
-			if !r.Chance(1, 2) || len(t.bases) >= 2 {
+			if !r.Chance(1, 2) || len(t.bases) >= 3 {
 				continue
 			}
 			disjoint := true
@@ -339,8 +340,14 @@ func runC12(ctx *Ctx) {
 		}
 		// faulty variants
 		base := names[len(names)-1]
+		ownKey := "k0"
+		if len(types[base].own) > 0 {
+			ownKey = types[base].own[0]
+		} else {
+			types[base].own = []string{"k0"} // the last type has no bases: give it a property to override
+		}
 		faults := map[string]string{
-			"override of an inherited property": "JSIGHT 0.3\nTYPE @heir\n{ // {allOf: \"" + base + "\"}\n  \"" + types[base].own[0] + "\": 1\n}\nTYPE " + base + "\n" + inhBody(types[base]) + "\n",
+			"override of an inherited property": "JSIGHT 0.3\nTYPE @heir\n{ // {allOf: \"" + base + "\"}\n  \"" + ownKey + "\": 1\n}\nTYPE " + base + "\n" + inhBody(types[base]) + "\n",
 			"base that is not an object":        "JSIGHT 0.3\nTYPE @heir\n{ // {allOf: \"@str\"}\n  \"a\": 1\n}\nTYPE @str\n\"abc\"\n",
 			"undefined base":                    "JSIGHT 0.3\nTYPE @heir\n{ // {allOf: \"@nosuch\"}\n  \"a\": 1\n}\n",
 		}
